@@ -620,9 +620,9 @@ def run(ctx):
     ctx.exhaustive = True
     ctx.extra_cov["exhaustive_stratum"] = len(ex)
     run_cases(ctx, ex, rng)
-    n = ctx.n(1500, 40000)
+    n = ctx.n(5000, 120000)
     if not ctx.proof_ok or ctx.drift:
-        n = max(n, 6000)
+        n = max(n, 10000)
         ctx.notes.append("proof/correspondence broken: widened random search for a failing input")
     run_cases(ctx, [random_case(rng) for _ in range(n)], rng)
 
